@@ -107,6 +107,7 @@ func NewOptsCorr(c *Ctx, r *rand.Rand) []Failure {
 	execAt := r.Intn(n + 1)
 	nextMw := 1
 	nextPlanner := 1
+	mergerCalls, mergerSaw, mergerInstalled := 0, 0, false
 	for k := 0; k <= n; k++ {
 		if k == execAt {
 			// the executor option: one of the options that touch none of the modelled fields
@@ -164,8 +165,25 @@ func NewOptsCorr(c *Ctx, r *rand.Rand) []Failure {
 			desc = append(desc, map[string]interface{}{"k": "middlewares", "ms": ms})
 			opts = append(opts, gateway.WithMiddlewares(mws...))
 		default:
-			desc = append(desc, map[string]interface{}{"k": "other", "what": "WithLogger"})
-			opts = append(opts, gateway.WithLogger(Quiet{}))
+			switch r.Intn(3) {
+			case 0:
+				desc = append(desc, map[string]interface{}{"k": "other", "what": "WithLogger"})
+				opts = append(opts, gateway.WithLogger(Quiet{}))
+			case 1:
+				desc = append(desc, map[string]interface{}{"k": "other", "what": "WithNoQueryPlanCache"})
+				opts = append(opts, gateway.WithNoQueryPlanCache())
+			default:
+				// a merger of the caller's own: it is the one that is asked, once, with every source schema and the
+				// gateway's own
+				desc = append(desc, map[string]interface{}{"k": "other", "what": "WithMerger"})
+				mergerCalls = 0
+				mergerInstalled = true
+				opts = append(opts, gateway.WithMerger(gateway.MergerFunc(func(schemas []*ast.Schema) (*ast.Schema, error) {
+					mergerCalls++
+					mergerSaw = len(schemas)
+					return schemas[0], nil
+				})))
+			}
 		}
 	}
 	in := newOptsCase{Opts: desc}
@@ -185,6 +203,9 @@ func NewOptsCorr(c *Ctx, r *rand.Rand) []Failure {
 	}()
 	if panicked != nil || nerr != nil {
 		return bad(fmt.Sprintf("gateway.New failed on a list of legal options: %v %v", panicked, nerr), ans, nil)
+	}
+	if mergerInstalled && (mergerCalls != 1 || mergerSaw != len(newOptsSchemas())+1) {
+		return bad(fmt.Sprintf("the merger given with WithMerger was called %d times with %d schemas (expected once, with the %d sources and the gateway's own)", mergerCalls, mergerSaw, len(newOptsSchemas())), ans, nil)
 	}
 	rc := &gateway.RequestContext{Context: context.Background(), Query: `{ __typename }`}
 	var data map[string]interface{}
